@@ -59,3 +59,15 @@ Fixpoint registered (p : list chars) (root : bool) (g : grp) : list (chars * cha
   end.
 Definition last_match (reg : list (chars * chars)) (d : chars) : option chars :=
   fold_left (fun acc kv => if ceq d (snd kv) then Some (fst kv) else acc) reg None.
+
+(* the variables with, for every axis, the fully qualified dimension name the handler writes AND the extent NetCDF's scoping
+   rule gives that axis (the size of the nearest enclosing declaration of the short name) *)
+Fixpoint vars_sized (p : list chars) (sc : scope) (g : grp) : list (chars * list (chars * option nat)) :=
+  match g with
+  | Grp n dims vars subs =>
+      let p' := match sc with [] => [] | _ => p ++ [n] end in
+      let sc' := (p', dims) :: sc in
+      map (fun v => (fq p' (fst v), map (fun d => (fq (resolve sc' d) d, resolve_size sc' d)) (snd v))) vars ++
+      flat_map (vars_sized p' sc') subs
+  end.
+
